@@ -35,6 +35,7 @@ def run(ctx):
     check_accept(ctx, prog)
     check_chunks(ctx, prog, m)
     check_numbers(ctx, prog)
+    check_utf16_helper(ctx)
     return __doc__.split('\n\n', 1)[1]
 
 
@@ -246,6 +247,16 @@ def check_exhaustive(ctx, prog):
         ctx.ok('C06.exhaustive', f['pq'], 'parse:comment switch covers every comment context', fwhere(f), 'no separate comment switch; comment contexts handled by the interpreted code', nontrivial=False)
 
 
+def check_utf16_helper(ctx):
+    """\\uXXXX escapes (and surrogate pairs) are converted by asl::utf16toUtf8: its thresholds, layouts and surrogate ranges are
+    decided by the region rule of C08 on String.cpp (the helper lives there)"""
+    import C08
+    prog2 = ir.load_units([os.path.join(ir.REPO, 'src', 'String.cpp')])
+    f = C08.fn1(prog2, 'asl::utf16toUtf8')
+    ctx.analysed(f)
+    C08.encoder_regions(ctx, prog2, f, True)
+
+
 def check_accept(ctx, prog):
     f = fn1(prog, 'asl::XdlParser::value')
     ctx.analysed(f)
@@ -414,4 +425,26 @@ def check_numbers(ctx, prog):
         ctx.check(worst is not None and worst <= limit, 'C06.numbers', f['pq'], role, fwhere(f, e['l']), 'integer conversion confined to <= %s characters' % worst,
                   'a number literal of %s characters is converted with the integer routine %s, whose result type only holds every literal of up to %d: longer literals wrap to unrelated values instead of the nearest double'
                   % ('unbounded length' if worst is None or worst >= 40 else worst, name, limit))
+    # a parsed double is narrowed to int only when its guards confine it to the range of int
+    for e in fn_exprs(f):
+        if e.get('k') == 'cast' and e.get('ck') == 'FloatingToIntegral' and T(f, e.get('t')).get('bits') == 32:
+            src = strip(q.expand(f, e['e']))
+            if not any(w.get('k') == 'call' and (w.get('fn') or '').split('::')[-1] in FLT for w in walk_expr(src)):
+                continue
+            role = 'parse:a parsed double is narrowed to int only inside the range of int'
+            try:
+                by_id, by_text = bounded.atoms_of(prog, f, e['e'])
+            except bounded.Undecidable as u:
+                ctx.undecided('C06.numbers', f['pq'], role, fwhere(f, e['l']), str(u))
+                continue
+            grid = [-1e16, -2147483649.0, -2147483648.0, -1.0, 0.0, 2147483647.0, 2147483648.0, 1e16]
+            inner = e['e']
+            st, info = bounded.decide(prog, f, g.of(e), lambda ev: -2147483648.0 <= ev.ev(inner) <= 2147483647.0, by_id, by_text, grid, G=g)
+            ctx.evaluations += len(grid)
+            if st == 'undecided':
+                ctx.undecided('C06.numbers', f['pq'], role, fwhere(f, e['l']), info)
+            else:
+                ctx.check(st == 'holds', 'C06.numbers', f['pq'], role, fwhere(f, e['l']), 'guards confine the value to [INT_MIN, INT_MAX]',
+                          'the literal value %s reaches `(int)` (%s): integers beyond the range of int decode to INT_MIN / garbage instead of the double the text denotes' % (
+                              ', '.join('%s' % v for v in info.values()) if isinstance(info, dict) else '', pe(e)))
     ctx.floor('C06.numbers conversions', n, 3)
